@@ -730,6 +730,21 @@ class Interp:
         if isinstance(op, (ast.NotEq, ast.IsNot, ast.NotIn)):
             pol = not pol
             op = {ast.NotEq: ast.Eq, ast.IsNot: ast.Is, ast.NotIn: ast.In}[type(op)]()
+        # type(d.get("k")) == T  (T not NoneType)  <=>  "k" in d and type(d["k"]) == T
+        if isinstance(l, ast.Call) and isinstance(l.func, ast.Name) and l.func.id == "type" and len(l.args) == 1 and isinstance(l.args[0], ast.Call) \
+                and isinstance(l.args[0].func, ast.Attribute) and l.args[0].func.attr == "get" and l.args[0].args and isinstance(l.args[0].args[0], ast.Constant) \
+                and (len(l.args[0].args) == 1 or (len(l.args[0].args) == 2 and isinstance(l.args[0].args[1], ast.Constant) and l.args[0].args[1].value is None)) \
+                and not l.args[0].keywords and isinstance(l.args[0].func.value, (ast.Name, ast.Subscript)):
+            g_ = l.args[0]
+            tn = [dotted_name(r)] if isinstance(op, (ast.Eq, ast.Is)) else ([dotted_name(x) for x in r.elts] if isinstance(op, ast.In) and isinstance(r, (ast.List, ast.Tuple, ast.Set)) else None)
+            if tn is not None and all(tn) and not any(n in ("NoneType", "type(None)") for n in tn):
+                if not pol:
+                    return st  # absent, or present with another type: no single refinement (sound: unchanged)
+                pres = self.narrow(st, ast.Compare(left=g_.args[0], ops=[ast.In()], comparators=[g_.func.value]), True, fn)
+                if pres is None:
+                    return None
+                sub = ast.Subscript(value=g_.func.value, slice=g_.args[0], ctx=ast.Load())
+                return self.narrow_cmp(pres, ast.Call(func=l.func, args=[sub], keywords=[]), op, r, True, fn)
         # type(x) == T / type(x) in [..]
         if isinstance(l, ast.Call) and isinstance(l.func, ast.Name) and l.func.id == "type" and len(l.args) == 1:
             tnames = None
@@ -940,6 +955,7 @@ class Interp:
 
     # ------------------------------------------------------------------ statements
     def block(self, stmts, states, fn, ctxt):
+        stmts = [x for s_ in stmts for x in self._desugar(s_)]
         live_out = ctxt.get("live_out")
         after = [None] * len(stmts)
         acc = set(live_out) if live_out is not None else None
@@ -960,6 +976,126 @@ class Interp:
             if not states:
                 break
         return states
+
+    # ---- desugaring of boolean-valued expressions (behaviour-preserving source-to-source step, cached per statement) ----
+    # `v = <bool expr>` loses the correlation between v and the facts the expression establishes; all()/any() over a generator hide a
+    # loop. Both are rewritten into the if / for-else forms the interpreter is precise on:
+    #     v = A and all(P(x) for x in L)   ==>   if A:  for x' in L:  if not P(x'): v = False; break
+    #                                                    else: v = True
+    #                                            else: v = False
+    # Only expressions that provably evaluate to a bool and have no side effects are rewritten.
+    def _desugar(self, s):
+        cache = self.__dict__.setdefault("_desugar_cache", {})
+        k = id(s)
+        if k in cache:
+            return cache[k][1]
+        out = self._desugar_stmt(s)
+        cache[k] = (s, out)  # keep s alive so that id() stays unique
+        return out
+
+    @staticmethod
+    def _has_quant(e):
+        return any(isinstance(x, ast.Call) and isinstance(x.func, ast.Name) and x.func.id in ("all", "any") and len(x.args) == 1
+                   and isinstance(x.args[0], (ast.GeneratorExp, ast.ListComp)) for x in ast.walk(e))
+
+    @classmethod
+    def _boolish(cls, e):
+        if isinstance(e, ast.Compare):
+            return True
+        if isinstance(e, ast.UnaryOp) and isinstance(e.op, ast.Not):
+            return True
+        if isinstance(e, ast.BoolOp):
+            return all(cls._boolish(v) for v in e.values)
+        if isinstance(e, ast.Constant) and isinstance(e.value, bool):
+            return True
+        if isinstance(e, ast.Call) and isinstance(e.func, ast.Name) and e.func.id in ("all", "any", "isinstance", "callable", "hasattr", "bool"):
+            return True
+        return False
+
+    @staticmethod
+    def _pure(e):
+        for x in ast.walk(e):
+            if isinstance(x, (ast.Await, ast.Yield, ast.YieldFrom, ast.NamedExpr, ast.Lambda)):
+                return False
+            if isinstance(x, ast.Call):
+                f = x.func
+                ok = (isinstance(f, ast.Name) and f.id in ("all", "any", "isinstance", "callable", "hasattr", "bool", "type", "len", "str", "int")) or \
+                    (isinstance(f, ast.Attribute) and f.attr in ("get", "keys", "values", "items", "match", "fullmatch", "startswith", "endswith", "isdigit"))
+                if not ok:
+                    return False
+        return True
+
+    def _fresh(self, hint="b"):
+        n = self.__dict__.get("_fresh_n", 0) + 1
+        self._fresh_n = n
+        return f"__sa_{hint}{n}"
+
+    def _set(self, name, value, at):
+        return ast.fix_missing_locations(ast.copy_location(ast.Assign(targets=[ast.Name(id=name, ctx=ast.Store())], value=ast.Constant(value=value)), at))
+
+    def _assign_bool(self, name, e, at):
+        """Statements that leave `name` bound to bool(e) (e boolish and pure)."""
+        if isinstance(e, ast.BoolOp):
+            first, rest = e.values[0], e.values[1:]
+            rest_e = rest[0] if len(rest) == 1 else ast.BoolOp(op=e.op, values=rest)
+            tname, pre = self._as_test(first, at)
+            if isinstance(e.op, ast.And):
+                node = ast.If(test=tname, body=self._assign_bool(name, rest_e, at), orelse=[self._set(name, False, at)])
+            else:
+                node = ast.If(test=tname, body=[self._set(name, True, at)], orelse=self._assign_bool(name, rest_e, at))
+            return pre + [ast.fix_missing_locations(ast.copy_location(node, at))]
+        if isinstance(e, ast.UnaryOp) and isinstance(e.op, ast.Not) and self._has_quant(e.operand) and self._boolish(e.operand):
+            t = self._fresh()
+            pre = self._assign_bool(t, e.operand, at)
+            node = ast.If(test=ast.Name(id=t, ctx=ast.Load()), body=[self._set(name, False, at)], orelse=[self._set(name, True, at)])
+            return pre + [ast.fix_missing_locations(ast.copy_location(node, at))]
+        if isinstance(e, ast.Call) and isinstance(e.func, ast.Name) and e.func.id in ("all", "any") and len(e.args) == 1 \
+                and isinstance(e.args[0], (ast.GeneratorExp, ast.ListComp)) and len(e.args[0].generators) == 1 and not e.args[0].generators[0].is_async:
+            g = e.args[0].generators[0]
+            is_all = e.func.id == "all"
+            ren = {}
+            for x in ast.walk(g.target):
+                if isinstance(x, ast.Name):
+                    ren[x.id] = self._fresh("g_" + x.id + "_")
+
+            class R(ast.NodeTransformer):
+                def visit_Name(self_, node):
+                    return ast.copy_location(ast.Name(id=ren.get(node.id, node.id), ctx=node.ctx), node)
+            import copy
+            tgt = R().visit(copy.deepcopy(g.target))
+            elt = R().visit(copy.deepcopy(e.args[0].elt))
+            conds = [R().visit(copy.deepcopy(c)) for c in g.ifs]
+            tname, pre = self._as_test(elt, at)
+            hit = [self._set(name, not is_all, at), ast.Break()]
+            inner = pre + [ast.If(test=ast.UnaryOp(op=ast.Not(), operand=tname) if is_all else tname, body=hit, orelse=[])]
+            for c in reversed(conds):
+                inner = [ast.If(test=c, body=inner, orelse=[])]
+            loop = ast.For(target=tgt, iter=g.iter, body=inner, orelse=[self._set(name, is_all, at)], type_comment=None)
+            return [ast.fix_missing_locations(ast.copy_location(loop, at))]
+        node = ast.If(test=e, body=[self._set(name, True, at)], orelse=[self._set(name, False, at)])
+        return [ast.fix_missing_locations(ast.copy_location(node, at))]
+
+    def _as_test(self, e, at):
+        """(test expression, statements to run first): a test that contains all()/any() is computed into a fresh boolean first."""
+        if self._has_quant(e) and self._boolish(e) and self._pure(e):
+            t = self._fresh()
+            return ast.Name(id=t, ctx=ast.Load()), self._assign_bool(t, e, at)
+        return e, []
+
+    def _desugar_stmt(self, s):
+        if isinstance(s, ast.Assign) and len(s.targets) == 1 and isinstance(s.targets[0], ast.Name) and self._pure(s.value) and self._boolish(s.value) \
+                and not (isinstance(s.value, ast.Constant)) and (self._has_quant(s.value) or isinstance(s.value, (ast.BoolOp, ast.Compare, ast.UnaryOp))):
+            return self._assign_bool(s.targets[0].id, s.value, s)
+        if isinstance(s, (ast.If, ast.Assert)) and self._has_quant(s.test) and self._boolish(s.test) and self._pure(s.test):
+            t, pre = self._as_test(s.test, s)
+            import copy
+            s2 = copy.copy(s)
+            s2.test = t
+            return pre + [s2]
+        if isinstance(s, ast.Return) and s.value is not None and self._has_quant(s.value) and self._boolish(s.value) and self._pure(s.value):
+            t, pre = self._as_test(s.value, s)
+            return pre + [ast.fix_missing_locations(ast.copy_location(ast.Return(value=t), s))]
+        return [s]
 
     def compact(self, states, live):
         states = [s for s in states if s is not None and not s.is_bottom()]
